@@ -29,6 +29,7 @@ REGIONS = [
     ("ctor-init-paren", "struct S { S() : a(", "), b{2} { } int after; }; int tail;", "()"),
     ("ctor-init-brace", "struct S { S() : a(1), b{", "} { } int after; }; int tail;", "{}"),
     ("ctor-init-pack", "template <typename... B> struct S : B... { S(B... bs) : B(", ")... { } int after; }; int tail;", "()"),
+    ("ctor-init-pack-then-more", "template <typename... B> struct S : B... { S(B... bs) : B(", ")..., a(1), c{2} { } int after; }; int tail;", "()"),
     ("ctor-init-brace-pack", "template <typename... B> struct S : B... { S(B... bs) : a(1), B{", "}... { } int after; }; int tail;", "{}"),
     ("attr-args", "[[gnu::thing(", ")]] int after; int tail;", "()"),
     ("attr-list", "[[ a ,", "]] int after; int tail;", "[[]]"),
